@@ -61,6 +61,53 @@ func runConstBoundUnchecked(r *Report, rule string, f *ssa.Function) int {
 				}
 			}
 		}
+		// third form: an index that a loop counts down (i = i - k) is used without any lower-bound test of
+		// it on the way: the loop ends only when the data says so, and below zero the index panics
+		// (`for !boundary(b[i]) { i-- }` on hostile bytes)
+		{
+			var idx ssa.Value
+			var on ssa.Value
+			switch s := in.(type) {
+			case *ssa.IndexAddr:
+				idx, on = s.Index, s.X
+			case *ssa.Lookup:
+				if _, isMap := s.X.Type().Underlying().(*types.Map); !isMap {
+					idx, on = s.Index, s.X
+				}
+			}
+			if ph, ok := stripValue(idx).(*ssa.Phi); ok && on != nil {
+				countsDown := false
+				for _, e := range ph.Edges {
+					if bo, ok := stripValue(e).(*ssa.BinOp); ok && bo.Op == token.SUB && stripValue(bo.X) == ssa.Value(ph) {
+						if k, ok := ConstInt(bo.Y); ok && k > 0 {
+							countsDown = true
+						}
+					}
+				}
+				if countsDown {
+					n++
+					guarded := false
+					for _, ft := range Facts(in.Block()) {
+						bo, ok := ft.Cond.(*ssa.BinOp)
+						if !ok {
+							continue
+						}
+						for _, side := range []ssa.Value{bo.X, bo.Y} {
+							sv := stripValue(side)
+							if sv == ssa.Value(ph) {
+								guarded = true
+							}
+							if b2, ok := sv.(*ssa.BinOp); ok && (stripValue(b2.X) == ssa.Value(ph) || stripValue(b2.Y) == ssa.Value(ph)) {
+								guarded = true
+							}
+						}
+					}
+					if !guarded {
+						r.Fail(rule, in.Pos(), "an index that the loop counts down is used without a test of it on the way ("+originSummary(on)+"): when the data never satisfies the loop's own condition the index passes zero and panics", r.P.FuncName(f), "countdown-index-unguarded")
+					}
+				}
+			}
+		}
 		if x == nil || need == 0 {
 			return
 		}
